@@ -87,6 +87,16 @@ CLAIMS = {
         "note": "What counts as Group-typed is decided by __is_group on run-time text (not decided); receivers are the constructs the DSL can emit as a whole text, so coverage is over those shapes. Trusts ast, re._parser, /verif/sa.",
         "technique": "abstract interpretation over receiver shapes + syntax-tree / group-table comparison with the regex parser",
     },
+    "C01": {
+        "text": "R-ESC: Pregex.__escape is interpreted on every character (quick: U+0000-U+00FF plus every character its constants mention, all others provably untouched because the body is replace-only; thorough: every code point) and on all pairs of syntax characters under four iteration orders of its step set - each result must parse to exactly the literal; R-SANIT: the sanitiser and constructor defaults; R-CTX: for each of the 40+ public str|Pregex parameters found in the annotations, passing the string emits exactly what passing a Pregex with the escaped text emits, for every type tag and every variadic position; R-AFFIX: affix strings only flow into Either.",
+        "note": "Not decided: correctness of the type tag __infer_type assigns to an escaped literal under composition. Trusts ast, re._parser, /verif/sa.",
+        "technique": "abstract interpretation of the escape routine against the regex parser + differential (str vs escaped Pregex) abstract interpretation of every builder entry",
+    },
+    "C03": {
+        "text": "R-RAISE: every raise statement raises a library exception class and nothing is caught (whole-package syntax rule with positive control); R-TERM: call graph (resolved calls, operator dispatch only where an operand can be a Pregex) is acyclic apart from direct self-recursion, which must carry a progress test; R-TOTAL/R-DOCEXC/R-COMPILE: abstract interpretation of every public pattern-building entry point (80+ core constructors/methods, all meta constructors in meta mode) with each parameter set to each kind of invalid value - outcome is a return that CPython's regex parser accepts or a library exception documented for that entry, never a builtin error or non-termination; R-GUARD arity rows; R-EXPORT: get_pattern() of every DSL-escaped text over an adversarial alphabet is printable and parses to the same regex.",
+        "note": "Not decided: compilability for arbitrary run-time operand texts (C02 decides the grouping discipline), termination of the class-algebra worklists for arbitrary operands (C07 explores small alphabets), hash-seed effects. Trusts ast, re._parser, /verif/sa.",
+        "technique": "raise-site and call-graph analysis + abstract interpretation sweep over invalid-argument kinds + regex-parser oracle",
+    },
 }
 
 NOT_APPLICABLE = {
